@@ -88,6 +88,7 @@ func WithoutCatchPanics() ProgramOption {
 // This is mainly useful for testing.
 func WithoutSignals() ProgramOption {
 	return func(p *Program) {
+		p.startupOptions |= withoutSignals
 		atomic.StoreUint32(&p.ignoreSignals, 1)
 	}
 }
